@@ -164,6 +164,8 @@ class Interp:
 
     def fresh(self, sort, hint="v"):
         n = "%s!%d" % (hint, next(self.fresh_counter))
+        if isinstance(sort, z3.SortRef):
+            return z3.Const(n, sort)
         if sort == "int":
             return z3.Int(n)
         if sort == "real":
@@ -637,28 +639,37 @@ class Interp:
     def _try_merge_ifexp(self, node, st, t):
         if not (self.feasible(st, t) and self.feasible(st, z3.Not(t))):
             return None
-        if not (self._simple_expr(node.body) and self._simple_expr(node.orelse)):
+        ra = self.try_eval_single(node.body, st, t)
+        if ra is None:
             return None
-        sa = st.fork()
-        sa.pc.append(t)
-        sb = st.fork()
-        sb.pc.append(z3.Not(t))
-        try:
-            oa = list(self.ev(node.body, sa))
-            ob = list(self.ev(node.orelse, sb))
-        except Unsupported:
+        rb = self.try_eval_single(node.orelse, st, z3.Not(t))
+        if rb is None:
             return None
-        if len(oa) != 1 or len(ob) != 1:
-            return None
-        va, vb = oa[0][1], ob[0][1]
-        if isinstance(va, Exc) or isinstance(vb, Exc):
-            return None
-        if len(oa[0][0].pc) != len(st.pc) + 1 or len(ob[0][0].pc) != len(st.pc) + 1:
-            return None
-        r = self.ite(t, va, vb)
+        r = self.ite(t, ra[0], rb[0])
         if r is None:
             return None
+        for c in ra[1]:
+            st.pc.append(z3.Implies(t, c))
+        for c in rb[1]:
+            st.pc.append(z3.Implies(z3.Not(t), c))
         return st, r
+
+    def try_eval_single(self, node, st, guard):
+        """Evaluate node under an extra assumption on a scratch copy.  -> (value, added constraints) when there is
+        exactly one outcome, it does not raise and it does not change pre-existing store entries; else None."""
+        trial = st.fork()
+        trial.pc.append(guard)
+        n0 = len(trial.pc)
+        try:
+            outs = list(self.ev(node, trial))
+        except Unsupported:
+            return None
+        if len(outs) != 1 or isinstance(outs[0][1], Exc):
+            return None
+        st2, v = outs[0]
+        if isinstance(v, Ref) or not self._same_store(st, st2):
+            return None
+        return v, st2.pc[n0:]
 
     def _simple_expr(self, node):
         for n in ast.walk(node):
